@@ -411,6 +411,25 @@ def _inline_helpers(prog: Program, cls: ClassInfo, fn: ast.FunctionDef, exclude:
                 return h, kind
         return None
 
+    def generator_of(call: ast.AST):
+        """a private generator method whose yields are plain `yield <expr>` statements (no yield from, no value returned)"""
+        if isinstance(call, ast.Call) and isinstance(call.func, ast.Attribute) and isinstance(call.func.value, ast.Name) \
+                and call.func.value.id == "self" and call.func.attr.startswith("_") and call.func.attr in methods \
+                and call.func.attr not in exclude and call.func.attr != fn.name:
+            owner, h = methods[call.func.attr]
+            if owner.is_abstract_method(call.func.attr) or h.decorator_list or h.args.vararg or h.args.kwarg:
+                return None
+            ys = [x for x in ast.walk(h) if isinstance(x, (ast.Yield, ast.YieldFrom))]
+            if not ys or any(isinstance(x, ast.YieldFrom) for x in ys):
+                return None
+            plain = {id(e.value) for e in ast.walk(h) if isinstance(e, ast.Expr) and isinstance(e.value, ast.Yield)}
+            if any(id(y) not in plain for y in ys):
+                return None
+            if any(isinstance(x, ast.Return) and x.value is not None for x in ast.walk(h)):
+                return None
+            return h
+        return None
+
     changed = False
 
     def do_block(b: List[ast.stmt], ends_function: bool) -> List[ast.stmt]:
@@ -427,6 +446,24 @@ def _inline_helpers(prog: Program, cls: ClassInfo, fn: ast.FunctionDef, exclude:
             if isinstance(st, ast.Try):
                 for hd in st.handlers:
                     hd.body = do_block(hd.body, ends_function and last)
+            # for x in self._generator(..): body   ->   the generator's body with every `yield e` replaced by `x = e; body`
+            if isinstance(st, ast.For) and not st.orelse and isinstance(st.iter, ast.Call) and not any(
+                    isinstance(x, (ast.Break, ast.Continue)) for b_ in st.body for x in ast.walk(b_)):
+                g = generator_of(st.iter)
+                if g is not None:
+                    inst = _instantiate(g, st.iter, fn)
+                    if inst is not None:
+                        class Y(ast.NodeTransformer):
+                            def visit_Expr(self, node):
+                                if isinstance(node.value, ast.Yield) and node.value.value is not None:
+                                    bind = ast.copy_location(ast.Assign(targets=[copy.deepcopy(st.target)], value=node.value.value), st)
+                                    return [bind] + copy.deepcopy(st.body)
+                                return node
+                        wrapper = ast.Module(body=inst, type_ignores=[])
+                        Y().visit(wrapper)
+                        new.extend(wrapper.body)
+                        changed = True
+                        continue
             # return self._h(..)
             if isinstance(st, ast.Return) and st.value is not None:
                 r = helper_of(st.value)
